@@ -6,6 +6,7 @@ import os
 from typing import List, Optional
 
 from ..cfg import CFG, ENTRY, EXIT, reaching_defs
+from .. import sym
 from ..core import (AnalysisError, FunctionInfo, Project, arg_for, dotted, first_param_annotation, kwarg, norm,
                     param_names, walk_no_nested)
 from ..report import VERIF
@@ -377,68 +378,64 @@ def r4(ctx):
     for st in find_calls:
         if isinstance(st, ast.Assign) and isinstance(st.targets[0], ast.Name):
             nulls_var = st.targets[0].id
-    # branch statements per member
-    def member_of(test):
-        t, neg = count_negations(test)
-        if isinstance(t, ast.Compare) and len(t.ops) == 1 and isinstance(t.ops[0], (ast.Is, ast.Eq, ast.IsNot, ast.NotEq)):
-            for side in (t.left, t.comparators[0]):
-                q = P.resolve_in(f, side) or ""
-                if q.startswith(enum.qualname + "."):
-                    pos = isinstance(t.ops[0], (ast.Is, ast.Eq)) ^ (neg % 2 == 1)
-                    return q.split(".")[-1], pos
-        return None, None
+    # what the function does under each policy, read off its path summaries (if/elif chains, early returns, nested else
+    # branches and conditional expressions all give the same summaries)
+    try:
+        outs = sym.outcomes(fn)
+    except sym.Unmodelled as e:
+        raise AnalysisError(f"C06.R4: _check_for_nulls cannot be summarised: {e}")
+    ATOM = {m: f"na_action is NAAction.{m}" for m in members}
+    tested = {norm(c) for o in outs for c, _ in o.conds}
 
-    branches = {}
-    for st in walk_no_nested(fn):
-        if isinstance(st, ast.If):
-            m, pos = member_of(st.test)
-            if m and pos:
-                branches.setdefault(m, st)
+    def under(m, extra=None):
+        facts = {a: (k == m) for k, a in ATOM.items()}
+        facts.update({t: False for t in tested if t.startswith("except_")})
+        facts.update(extra or {})
+        return sym.select(outs, facts)
+
+    def drop_effects(o):
+        return [e for e in o.effects if any(isinstance(n, ast.Name) and n.id == "drop_rows" for n in ast.walk(e))]
+
+    def searches(o):
+        return any("find_nulls(" in norm(c) for c, _ in o.conds) or any("find_nulls(" in norm(e) for e in o.effects) \
+            or any("find_nulls(" in norm(v) for v in o.env.values())   # … or was bound on the way, even if never looked at
     for m in members:
         ctx.look()
-        ctx.check(m in branches, "C06.R4", f"_check_for_nulls handles NAAction.{m}", f.where,
+        ctx.check(ATOM[m] in tested, "C06.R4", f"_check_for_nulls handles NAAction.{m}", f.where,
                   ctx.construct(f, text=f"NAAction.{m}"), f"no branch tests `na_action is NAAction.{m}`; that policy falls "
                   f"through to another policy's behaviour or to the error branch")
-    # IGNORE returns before any null search
-    if "IGNORE" in branches:
-        b = branches["IGNORE"]
-        body_returns = len(b.body) >= 1 and isinstance(b.body[0], ast.Return)
-        dom = all(cfg.dominates(b, st) for st in find_calls)
-        ctx.check(body_returns and dom, "C06.R4", "IGNORE returns before any null search", f.module.line(b),
-                  ctx.construct(f, b.test), "the IGNORE policy must return before find_nulls is consulted (every row is kept and "
+    if "IGNORE" in members and ATOM["IGNORE"] in tested:
+        ig = under("IGNORE")
+        ok = bool(ig) and all(o.kind in ("return", "fall") and not o.effects and not searches(o) for o in ig)
+        ctx.check(ok, "C06.R4", "IGNORE returns before any null search", f.where,
+                  ctx.construct(f, text="IGNORE"), "the IGNORE policy must return before find_nulls is consulted (every row is kept and "
                   "null-invalid constants must not raise)")
-    mutations = [c for c in ast.walk(fn) if isinstance(c, ast.Call) and isinstance(c.func, ast.Attribute)
-                 and isinstance(c.func.value, ast.Name) and c.func.value.id == "drop_rows"]
-    mutations += [n for n in ast.walk(fn) if isinstance(n, (ast.Assign, ast.AugAssign)) and any(
-        isinstance(x, ast.Name) and x.id == "drop_rows" and isinstance(x.ctx, ast.Store) for x in ast.walk(n))]
-    if "RAISE" in branches:
-        b = branches["RAISE"]
-        raises = [n for n in ast.walk(ast.Module(body=b.body, type_ignores=[])) if isinstance(n, ast.Raise)]
-        ok = False
-        for r in raises:
-            g = P.parent(r)
-            if isinstance(g, ast.If) and g is not b and r in g.body:
-                t, neg = count_negations(g.test)
-                if neg % 2 == 0 and (isinstance(t, ast.Name) and t.id == nulls_var
-                                     or isinstance(t, ast.Compare) and mentions(t, [nulls_var]) and _is_nonempty_test(t)):
-                    ok = True
-        ctx.check(ok, "C06.R4", "RAISE raises iff the null set is non-empty", f.module.line(b), ctx.construct(f, b.test),
+    if "RAISE" in members and ATOM["RAISE"] in tested:
+        rs = under("RAISE")
+        nul = sorted({norm(c) for o in rs for c, _ in o.conds if "find_nulls(" in norm(c)})
+        ok = len(nul) == 1 and nul[0] in ("find_nulls(values)", "len(find_nulls(values)) > 0", "len(find_nulls(values)) == 0")
+        if ok:
+            nonempty = nul[0] != "len(find_nulls(values)) == 0"
+            some = under("RAISE", {nul[0]: nonempty})
+            none_ = under("RAISE", {nul[0]: not nonempty})
+            ok = bool(some) and all(o.kind == "raise" for o in some) and bool(none_) and all(o.kind in ("return", "fall") for o in none_)
+        ctx.check(ok, "C06.R4", "RAISE raises iff the null set is non-empty", f.where, ctx.construct(f, text="RAISE"),
                   "under the RAISE policy the `raise` must be guarded by exactly the non-emptiness of the found null positions")
-        inside = [m for m in mutations if _inside(P, m, b.body)]
-        ctx.check(not inside, "C06.R4", "RAISE does not touch the drop set", f.module.line(b),
+        ctx.check(not any(drop_effects(o) for o in rs), "C06.R4", "RAISE does not touch the drop set", f.where,
                   ctx.construct(f, text="RAISE mutates drop_rows"), "the RAISE policy must not alter the caller's drop set")
-    if "DROP" in branches:
-        b = branches["DROP"]
-        upd = [m for m in mutations if _inside(P, m, b.body)]
-        good = (len(upd) == 1 and isinstance(upd[0], ast.Call) and upd[0].func.attr == "update" and len(upd[0].args) == 1
-                and isinstance(upd[0].args[0], ast.Name) and upd[0].args[0].id == nulls_var)
-        ctx.check(good, "C06.R4", "DROP adds exactly the found null positions to the shared set", f.module.line(b),
+    if "DROP" in members and ATOM["DROP"] in tested:
+        dr = under("DROP")
+        good = bool(dr) and all(o.kind in ("return", "fall") and [norm(e) for e in drop_effects(o)] == ["drop_rows.update(find_nulls(values))"] for o in dr)
+        ctx.check(good, "C06.R4", "DROP adds exactly the found null positions to the shared set", f.where,
                   ctx.construct(f, text="DROP update"), "under the DROP policy the only effect must be "
-                  f"`drop_rows.update({nulls_var})`; found: {[norm(u) for u in upd]}")
-        others = [m for m in mutations if not _inside(P, m, b.body)]
+                  f"`drop_rows.update(<found nulls>)`; found: {[[norm(e)[:70] for e in drop_effects(o)] for o in dr]}")
+        others = [norm(e)[:60] for o in outs if o not in dr for e in drop_effects(o)]
         ctx.check(not others, "C06.R4", "the drop set is only written under DROP", f.where,
                   ctx.construct(f, text="drop_rows written outside DROP"),
-                  f"drop_rows is written outside the DROP branch: {[norm(o)[:60] for o in others]}")
+                  f"drop_rows is written outside the DROP branch: {others}")
+    unknown = under(None)
+    ctx.check(bool(unknown) and all(o.kind == "raise" for o in unknown), "C06.R4", "an unknown policy is rejected", f.where, ctx.construct(f, text="unknown policy"),
+              "a value of na_action that is none of the NAAction members must raise, not fall through to another policy's behaviour")
     # the null search is applied to the evaluated values
     for st in find_calls:
         for c in header_calls(st):
